@@ -32,7 +32,7 @@ m = {
         "guard": "verif",
         "enable": "go build -tags verif (harness module replaces github.com/d5/tengo/v2 => /repo)",
         "baseline_off_cmd": "cd /repo && go test -vet=off -count=1 ./...",
-        "source_commits": [l.split()[0] for l in os.popen("git -C /repo log --format='%h %s' | grep 'verif hooks'").read().strip().split("\n") if l],
+        "source_commits": [l.split()[0] for l in os.popen("git -C /repo log --format='%h %s' | grep -i 'verif hook'").read().strip().split("\n") if l],
         "add_only": True,
     },
     "engines": [
